@@ -68,6 +68,8 @@ type e2eCase struct {
 	FailRecoverable bool     `json:"fail_recoverable"` // the receive error is ENETDOWN on the first connection only: the task must re-dial, and the signal is sent afterwards
 	LateIdx         int      `json:"late_interface"`   // >0: the (LateIdx-1)-th advertising/monitoring interface does not exist for its first LateN lookups
 	LateN           int      `json:"late_lookups"`
+	Traffic         bool     `json:"traffic"` // besides the solicitations: a foreign RA with the M flag flipped (and one with hop limit 64) on advertising interfaces; an RA, its hop-limit-64 copy and an RS on monitoring interfaces; /metrics is read again afterwards
+	Unspec          bool     `json:"unspec"`  // with Traffic: a solicitation from :: as well; the second scrape waits for the multicast RA that answers it (3 s after the initial RA)
 }
 
 type e2eProbe struct {
@@ -84,7 +86,7 @@ type e2eRun struct {
 	Events                    []system.VkEvent
 	Notes                     []string
 	Probes                    []e2eProbe
-	Metrics                   e2eProbe
+	Metrics, Metrics2         e2eProbe
 	ReadyNote                 bool   // READY=1 seen before the signal was sent
 	Hung                      string // non-empty: the process had to be killed (why)
 	FailIface                 string // the interface whose task fails by itself (fail mode)
@@ -150,7 +152,8 @@ func e2eExecute(c e2eCase, cfg rConfig) (*e2eRun, error) {
 		missing[m] = true
 	}
 	w := system.VkWorld{Log: filepath.Join(dir, "events.jsonl"), Ifaces: map[string]system.VkIface{}}
-	tasks, late := 0, 0
+	tasks, late, scripted := 0, 0, 0
+	var unspecIfaces []string
 	for i, ri := range cfg.Interfaces {
 		if missing[i] {
 			continue
@@ -160,6 +163,22 @@ func e2eExecute(c e2eCase, cfg rConfig) (*e2eRun, error) {
 		if c.Solicit && ri.Advertise {
 			vi.RS = []system.VkRS{{AfterMS: 20, From: "fe80::bad", Hop: 64}, {AfterMS: 30, From: "fe80::abc", Hop: 255}}
 		}
+		if c.Traffic && ri.Advertise {
+			// another router's RA: ours with the M flag flipped and no options -> exactly one inconsistency
+			foreign := &ndp.RouterAdvertisement{CurrentHopLimit: uint8(ri.HopLimit), ManagedConfiguration: !ri.Managed, OtherConfiguration: ri.Other, RouterLifetime: 1800 * time.Second}
+			vi.RS = append(vi.RS, system.VkRS{AfterMS: 40, From: "fe80::99", Hop: 255, Wire: e2eWire(foreign)}, system.VkRS{AfterMS: 45, From: "fe80::98", Hop: 64, Wire: e2eWire(foreign)})
+		}
+		if c.Traffic && c.Unspec && ri.Advertise && !ri.UnicastOnly {
+			vi.RS = append(vi.RS, system.VkRS{AfterMS: 50, From: "::", Hop: 255})
+			unspecIfaces = append(unspecIfaces, ri.Name)
+		}
+		if c.Traffic && ri.Monitor {
+			heard := &ndp.RouterAdvertisement{CurrentHopLimit: 64, ManagedConfiguration: true, RouterLifetime: 1800 * time.Second, Options: []ndp.Option{
+				&ndp.PrefixInformation{PrefixLength: 64, OnLink: true, AutonomousAddressConfiguration: true, ValidLifetime: 3600 * time.Second, PreferredLifetime: 1800 * time.Second, Prefix: netip.MustParseAddr("2001:db8:77::")}}}
+			vi.RS = append(vi.RS, system.VkRS{AfterMS: 25, From: "fe80::77", Hop: 255, Wire: e2eWire(heard)}, system.VkRS{AfterMS: 35, From: "fe80::78", Hop: 64, Wire: e2eWire(heard)},
+				system.VkRS{AfterMS: 40, From: "fe80::79", Hop: 255})
+		}
+		scripted += len(vi.RS)
 		if c.FailIdx > 0 && (ri.Advertise || ri.Monitor) {
 			tasks++
 			if tasks == c.FailIdx {
@@ -389,6 +408,30 @@ func e2eExecute(c e2eCase, cfg rConfig) (*e2eRun, error) {
 	if wantReady {
 		run.Probes = append(run.Probes, get("/_/api/interfaces"))
 		run.Metrics = get("/metrics")
+		if c.Traffic {
+			// every scripted message has been read (the handlers run right after the read): a second scrape
+			for time.Now().Before(deadline) {
+				b, _ := os.ReadFile(w.Log)
+				if bytes.Count(b, []byte(`"ev":"read"`)) >= scripted {
+					break
+				}
+				time.Sleep(20 * time.Millisecond)
+			}
+			// ... and every solicitation from :: has been answered by a (scheduled) multicast RA
+			for time.Now().Before(deadline) {
+				b, _ := os.ReadFile(w.Log)
+				done := true
+				for _, n := range unspecIfaces {
+					done = done && bytes.Count(b, []byte(`"ev":"write","iface":"`+n+`","conn":`)) >= 2 && multicastWrites(b, n) >= 2
+				}
+				if done {
+					break
+				}
+				time.Sleep(50 * time.Millisecond)
+			}
+			time.Sleep(100 * time.Millisecond)
+			run.Metrics2 = get("/metrics")
+		}
 		time.Sleep(time.Duration(c.WaitMS) * time.Millisecond)
 		if c.WaitMS > 0 {
 			run.Probes = append(run.Probes, get("/_/api/interfaces"))
@@ -434,6 +477,25 @@ func e2eExecute(c e2eCase, cfg rConfig) (*e2eRun, error) {
 		run.Hung = fmt.Sprintf("the process was still running %v after SIG%s", e2eBudget, c.Sig)
 	}
 	return run, nil
+}
+
+// multicastWrites counts the all-nodes RAs of one interface in the raw event log.
+func multicastWrites(log []byte, iface string) int {
+	n := 0
+	for _, line := range bytes.Split(log, []byte("\n")) {
+		if bytes.Contains(line, []byte(`"ev":"write","iface":"`+iface+`"`)) && bytes.Contains(line, []byte(`"dst":"ff02::1"`)) {
+			n++
+		}
+	}
+	return n
+}
+
+func e2eWire(m ndp.Message) string {
+	b, err := ndp.MarshalMessage(m)
+	if err != nil {
+		panic("verif: scripted message does not encode: " + err.Error())
+	}
+	return hex.EncodeToString(b)
 }
 
 // --- expected RAs with count-down intervals ------------------------------------
@@ -879,6 +941,173 @@ func oracleC10(c e2eCase, run *e2eRun) error {
 		return verifkit.Violf("C10main/recoverable-fault-fatal", "exit code %d %s although no fatal fault was injected\n%s", run.ExitCode, run.ExitSignal, d())
 	}
 	return nil
+}
+
+// e2eTraffic judges the second /metrics scrape, taken after the scripted traffic has been read:
+// monitor series (C18), inconsistency reports (C12), sent / received / invalid counters (C07, C09).
+func e2eTraffic(pfx string, monitor, inconsistency, counters bool) e2eOracle {
+	return func(c e2eCase, run *e2eRun) error {
+		if !c.Traffic || !c.Prom || c.Early || c.PortBusy || len(c.Missing) > 0 || run.Hung != "" || run.FailIface != "" || run.RecoverIface != "" {
+			return nil
+		}
+		if run.Metrics2.Status == 0 {
+			return e2eSkip{"the second /metrics request got no HTTP answer"}
+		}
+		d := func() string { return e2eDesc(c, run) }
+		if run.Metrics2.Status != 200 {
+			return verifkit.Violf(pfx+"/metrics-status", "second GET /metrics -> %d\n%s\n%s", run.Metrics2.Status, firstN(string(run.Metrics2.Body), 600), d())
+		}
+		for i := range run.Ifaces {
+			if run.Ifaces[i].Advertise {
+				if _, _, fails := e2eExpect(c, run, i, run.Spawn, run.Exit); fails {
+					return nil // RA generation fails on an interface: the advertiser cannot run (judged elsewhere)
+				}
+			}
+		}
+		order := map[string][]string{
+			"corerad_monitor_messages_received_total": {"interface", "host", "message"},
+			"corerad_monitor_flag_managed":            {"interface", "router"}, "corerad_monitor_flag_other": {"interface", "router"},
+			"corerad_monitor_default_route_expiration_timestamp_seconds": {"interface", "router"},
+			"corerad_monitor_prefix_autonomous":                          {"interface", "prefix", "router"}, "corerad_monitor_prefix_on_link": {"interface", "prefix", "router"},
+			"corerad_monitor_prefix_preferred_expiration_timestamp_seconds": {"interface", "prefix", "router"},
+			"corerad_monitor_prefix_valid_expiration_timestamp_seconds":     {"interface", "prefix", "router"},
+			"corerad_messages_received_invalid_total":                       {"interface", "message"},
+			"corerad_advertiser_inconsistencies_total":                      {"interface", "details", "field"},
+			"corerad_advertiser_messages_received_total":                    {"interface", "message"},
+			"corerad_advertiser_router_advertisements_total":                {"interface", "type"},
+		}
+		got := e2eParseProm(run.Metrics2.Body, order)
+		type rng struct{ lo, hi float64 }
+		want := map[string]map[string]rng{}
+		put := func(name, key string, lo, hi float64) {
+			if want[name] == nil {
+				want[name] = map[string]rng{}
+			}
+			want[name][key] = rng{lo, hi}
+		}
+		readAt := func(iface, from string) (float64, bool) {
+			for _, e := range run.Events {
+				if e.Ev == "read" && e.Iface == iface && e.Dst == from {
+					return float64(e.TNS) / 1e9, true
+				}
+			}
+			return 0, false
+		}
+		q := float64(run.Metrics2.Q.UnixNano()) / 1e9
+		judged := map[string]bool{}
+		for _, ri := range run.Ifaces {
+			n := ri.Name
+			switch {
+			case ri.Monitor && monitor:
+				t, ok := readAt(n, "fe80::77")
+				if !ok {
+					return e2eSkip{"the scripted RA was not read before the scrape"}
+				}
+				ra, rs := "router advertisement", "router solicitation"
+				put("corerad_monitor_messages_received_total", n+"|fe80::77|"+ra, 1, 1)
+				put("corerad_monitor_messages_received_total", n+"|fe80::79|"+rs, 1, 1)
+				put("corerad_monitor_flag_managed", n+"|fe80::77", 1, 1)
+				put("corerad_monitor_flag_other", n+"|fe80::77", 0, 0)
+				fl := func(x float64) float64 { return float64(int64(x)) }
+				put("corerad_monitor_default_route_expiration_timestamp_seconds", n+"|fe80::77", fl(t)+1800, fl(q)+1800)
+				pk := n + "|2001:db8:77::/64|fe80::77"
+				put("corerad_monitor_prefix_autonomous", pk, 1, 1)
+				put("corerad_monitor_prefix_on_link", pk, 1, 1)
+				put("corerad_monitor_prefix_preferred_expiration_timestamp_seconds", pk, fl(t)+1800, fl(q)+1800)
+				put("corerad_monitor_prefix_valid_expiration_timestamp_seconds", pk, fl(t)+3600, fl(q)+3600)
+				put("corerad_messages_received_invalid_total", n+"|"+ra, 1, 1)
+				for name := range order {
+					if strings.HasPrefix(name, "corerad_monitor_") {
+						judged[name] = true
+					}
+				}
+				judged["corerad_messages_received_invalid_total"] = true
+			case ri.Advertise:
+				if inconsistency {
+					put("corerad_advertiser_inconsistencies_total", n+"||managed_configuration", 1, 1)
+					judged["corerad_advertiser_inconsistencies_total"] = true
+					if got := strings.Count(run.Stderr, n+": inconsistencies detected"); got != 1 {
+						return verifkit.Violf(pfx+"/inconsistency-log", "%q: %d 'inconsistencies detected' log lines for one inconsistent RA (and one with hop limit 64)\n%s", n, got, d())
+					}
+				}
+				if counters {
+					put("corerad_messages_received_invalid_total", n+"|router advertisement", 1, 1)
+					put("corerad_advertiser_messages_received_total", n+"|router advertisement", 1, 1)
+					rs := 0.0
+					if c.Solicit {
+						put("corerad_messages_received_invalid_total", n+"|router solicitation", 1, 1)
+						rs++
+					}
+					if c.Unspec && !ri.UnicastOnly {
+						rs++
+					}
+					if rs > 0 {
+						put("corerad_advertiser_messages_received_total", n+"|router solicitation", rs, rs)
+					}
+					// sent by type: between the writes logged well before the scrape and those logged before it ended
+					// (only scheduled transmissions are counted: the initial RA of a connection - its first
+					// multicast write - is sent outside the scheduler)
+					lo, hi := map[string]float64{}, map[string]float64{}
+					initialSeen := map[int]bool{}
+					for _, e := range run.Events {
+						if e.Ev != "write" || e.Iface != n {
+							continue
+						}
+						typ := "unicast"
+						if e.Dst == "ff02::1" {
+							typ = "multicast"
+							if !initialSeen[e.Conn] {
+								initialSeen[e.Conn] = true
+								continue
+							}
+						}
+						if e.TNS <= run.Metrics2.R.UnixNano() {
+							hi[typ]++
+						}
+						if e.TNS <= run.Metrics2.Q.UnixNano()-int64(100*time.Millisecond) {
+							lo[typ]++
+						}
+					}
+					for _, typ := range []string{"unicast", "multicast"} {
+						if hi[typ] > 0 {
+							put("corerad_advertiser_router_advertisements_total", n+"|"+typ, lo[typ], hi[typ])
+						}
+					}
+					judged["corerad_messages_received_invalid_total"] = true
+					judged["corerad_advertiser_messages_received_total"] = true
+					judged["corerad_advertiser_router_advertisements_total"] = true
+				}
+			}
+		}
+		kinds := map[string]bool{}
+		for _, ri := range run.Ifaces {
+			kinds[ri.Name] = (ri.Monitor && monitor) || (ri.Advertise && (inconsistency || counters))
+		}
+		for name := range judged {
+			for key, r := range want[name] {
+				v, ok := got[name][key]
+				if !ok && r.lo > 0 {
+					return verifkit.Violf(pfx+"/series-missing", "/metrics has no sample %s{%s} after the scripted traffic\n%s", name, key, d())
+				}
+				if v < r.lo || v > r.hi {
+					return verifkit.Violf(pfx+"/series-differs", "/metrics: %s{%s} = %v, want within [%v, %v]\n%s", name, key, v, r.lo, r.hi, d())
+				}
+			}
+			for key, v := range got[name] {
+				iface, _, _ := strings.Cut(key, "|")
+				if _, ok := want[name][key]; !ok && kinds[iface] {
+					// only interfaces of the kind this oracle judges; the other kind's series belong to another property
+					for _, ri := range run.Ifaces {
+						if ri.Name == iface && ((ri.Monitor && strings.HasPrefix(name, "corerad_monitor_")) || (ri.Advertise && strings.HasPrefix(name, "corerad_advertiser_")) ||
+							(name == "corerad_messages_received_invalid_total" && ((ri.Monitor && monitor) || (ri.Advertise && counters)))) {
+							return verifkit.Violf(pfx+"/series-unexpected", "/metrics: unexpected sample %s{%s} = %v\n%s", name, key, v, d())
+						}
+					}
+				}
+			}
+		}
+		return nil
+	}
 }
 
 // oracleC11: what is left behind in the operating system when the process has ended.
@@ -1476,6 +1705,33 @@ func TestVerif_C10main(t *testing.T) {
 	prop := e2eProp(k, "C10", oracleC10, oracleC20)
 	k.Regress(t, func(sub string, raw json.RawMessage) error { return verifkit.Decode(raw, prop) })
 	verifkit.Rapid(k, t, "whole-process", k.N(24, 1200), e2eGenMode(false, true), prop)
+}
+
+// e2eGenTraffic: ordinary runs (no special mode) with the scripted traffic and Prometheus on.
+func e2eGenTraffic(t *rapid.T) e2eCase {
+	c := e2eGenMode(false, false)(t)
+	c.Early, c.Missing, c.FailIdx, c.LateIdx, c.FailRecoverable = false, nil, 0, 0, false
+	c.Prom, c.Traffic, c.Solicit = true, true, rapid.Bool().Draw(t, "traffic-solicit")
+	c.Unspec = rapid.IntRange(0, 5).Draw(t, "traffic-unspec") == 0
+	return c
+}
+
+func e2eTrafficTest(t *testing.T, id string, o e2eOracle) {
+	k := verifkit.Start(t, id)
+	k.WholeProcess = true
+	prop := e2eProp(k, id, o)
+	k.Regress(t, func(sub string, raw json.RawMessage) error { return verifkit.Decode(raw, prop) })
+	verifkit.Rapid(k, t, "whole-process", k.N(24, 1200), e2eGenTraffic, prop)
+}
+
+func TestVerif_C18main(t *testing.T) {
+	e2eTrafficTest(t, "C18", e2eTraffic("C18main", true, false, false))
+}
+func TestVerif_C12main(t *testing.T) {
+	e2eTrafficTest(t, "C12", e2eTraffic("C12main", false, true, false))
+}
+func TestVerif_C07main(t *testing.T) {
+	e2eTrafficTest(t, "C07", e2eTraffic("C07main", false, false, true))
 }
 
 func TestVerif_C11main(t *testing.T) {
